@@ -200,6 +200,20 @@ class Array:
         with open(self.conf, "w") as f:
             f.write("\n".join(lines) + "\n")
 
+    def drop_disk(self, i):
+        """Remove data disk i from the configuration (its directory stays)."""
+        self.disks.remove(i)
+        self.write_conf()
+
+    def add_disk(self):
+        """Add a brand new data disk at the end of the configuration; returns its index."""
+        i = len(self.disk_names)
+        self.disk_names.append("d%d" % (i + 1))
+        os.makedirs(self.ddir(i), exist_ok=True)
+        self.disks.append(i)
+        self.write_conf()
+        return i
+
     # ---- running
     def cmd(self, name, *args, variant="plain", env=None, shim=None, timeout=120,
             stdin=None, conf=None, base_opts=True, strace=None, binary=None):
@@ -442,6 +456,7 @@ class FsModel:
         self._mkparents(disk, sub)
         p = self.path(disk, sub)
         if old is not None and not keep_inode:
+            self._detach_links(disk, sub, old)
             os.unlink(p)
         with open(p, "wb") as f:
             f.write(data)
@@ -450,7 +465,28 @@ class FsModel:
         os.utime(p, ns=(mtime_ns, mtime_ns))
         self.entries[disk][sub] = ("file", data, mtime_ns)
         self._remember(disk, sub, data, mtime_ns)
+        self._remember_links(disk, sub)
         return mtime_ns
+
+    def links_of(self, disk, sub):
+        return [s2 for s2, e2 in self.entries[disk].items() if e2[0] == "hardlink" and e2[1] == sub]
+
+    def _remember_links(self, disk, sub):
+        """All names of one inode share content and time-stamp; the tool may record any of them as the file."""
+        e = self.entries[disk][sub]
+        for s2 in self.links_of(disk, sub):
+            self._remember(disk, s2, e[1], e[2])
+
+    def _detach_links(self, disk, sub, e):
+        """`sub` stops being the inode its hard links point to: the first link becomes the file."""
+        links = self.links_of(disk, sub)
+        if not links:
+            return
+        first = links[0]
+        self.entries[disk][first] = ("file", e[1], e[2])
+        self._remember(disk, first, e[1], e[2])
+        for s3 in links[1:]:
+            self.entries[disk][s3] = ("hardlink", first)
 
     def set_mtime(self, disk, sub, mtime_ns=None):
         e = self.entries[disk][sub]
@@ -459,6 +495,7 @@ class FsModel:
         os.utime(self.path(disk, sub), ns=(mtime_ns, mtime_ns))
         self.entries[disk][sub] = ("file", e[1], mtime_ns)
         self._remember(disk, sub, e[1], mtime_ns)
+        self._remember_links(disk, sub)
 
     def symlink(self, disk, sub, target):
         if sub in self.entries[disk]:
@@ -473,6 +510,7 @@ class FsModel:
         self._mkparents(disk, sub)
         os.link(self.path(disk, target_sub), self.path(disk, sub))
         self.entries[disk][sub] = ("hardlink", target_sub)
+        self._remember_links(disk, target_sub)
 
     def mkdir(self, disk, sub):
         if sub in self.entries[disk]:
@@ -492,14 +530,7 @@ class FsModel:
             os.unlink(p)
         if e[0] == "file":
             # hard links to it become files of their own in the model
-            for s2, e2 in list(self.entries[disk].items()):
-                if e2[0] == "hardlink" and e2[1] == sub:
-                    self.entries[disk][s2] = ("file", e[1], e[2])
-                    self._remember(disk, s2, e[1], e[2])
-                    for s3, e3 in list(self.entries[disk].items()):
-                        if e3[0] == "hardlink" and e3[1] == sub and s3 != s2:
-                            self.entries[disk][s3] = ("hardlink", s2)
-                    break
+            self._detach_links(disk, sub, e)
         self._note_empty_parents(disk, sub)
 
     def _note_empty_parents(self, disk, sub):
@@ -524,6 +555,10 @@ class FsModel:
                 for s3, e3 in list(self.entries[disk].items()):
                     if e3[0] == "hardlink" and e3[1] == sub:
                         self.entries[disk][s3] = ("hardlink", sub2)
+            elif e[0] == "hardlink":
+                te = self.entries[disk].get(e[1])
+                if te is not None and te[0] == "file":
+                    self._remember(disk2, sub2, te[1], te[2])
             self._note_empty_parents(disk, sub)
         else:
             assert e[0] == "file"
@@ -533,6 +568,34 @@ class FsModel:
     def copy(self, disk, sub, disk2, sub2):
         e = self.entries[disk][sub]
         self.write(disk2, sub2, e[1], e[2])
+
+    def adopt_touch(self):
+        """After `snapraid touch`: files whose sub-second time-stamp was zero got a new one from
+        the tool; read it back so that the version store keeps identifying versions."""
+        n = 0
+        for d, es in self.entries.items():
+            for s, e in list(es.items()):
+                if e[0] != "file":
+                    continue
+                try:
+                    st = os.lstat(self.path(d, s))
+                except OSError:
+                    continue
+                if st.st_mtime_ns != e[2] and st.st_mtime_ns // 1_000_000_000 == e[2] // 1_000_000_000 and st.st_size == len(e[1]):
+                    es[s] = ("file", e[1], st.st_mtime_ns)
+                    self._remember(d, s, e[1], st.st_mtime_ns)
+                    self._remember_links(d, s)
+                    n += 1
+        return n
+
+    def clear_disk(self, disk):
+        """Remove every entry of a disk through the model (parents that become empty included)."""
+        for _ in range(64):
+            if not self.entries[disk]:
+                break
+            for s_ in sorted(self.entries[disk], key=lambda x: -len(x)):
+                if s_ in self.entries[disk]:
+                    self.remove(disk, s_)
 
     def files(self, disk=None):
         out = []
